@@ -1419,6 +1419,20 @@ class Server:
         connection.response(code, info)
         return True
 
+    @staticmethod
+    async def _start_server(*args, **kwargs):
+        starting = asyncio.ensure_future(asyncio.start_server(*args, **kwargs))
+        try:
+            return await asyncio.shield(starting)
+        except asyncio.CancelledError:
+            # session is closing while the listener is being opened: nobody
+            # will ever use (or close) it, so let it finish and close it here
+            try:
+                (await starting).close()
+            except OSError:
+                pass
+            raise
+
     async def _start_passive_server(self, connection, handler_callback):
         if self.available_data_ports is not None:
             viewed_ports = set()
@@ -1428,7 +1442,7 @@ class Server:
                     if port in viewed_ports:
                         raise errors.NoAvailablePort
                     viewed_ports.add(port)
-                    passive_server = await asyncio.start_server(
+                    passive_server = await self._start_server(
                         handler_callback,
                         connection.server_host,
                         port,
@@ -1443,8 +1457,11 @@ class Server:
                     self.available_data_ports.put_nowait((priority + 1, port))
                     if err.errno != errno.EADDRINUSE:
                         raise
+                except asyncio.CancelledError:
+                    self.available_data_ports.put_nowait((priority, port))
+                    raise
         else:
-            passive_server = await asyncio.start_server(
+            passive_server = await self._start_server(
                 handler_callback,
                 connection.server_host,
                 connection.passive_server_port,
